@@ -19,6 +19,8 @@ func round2Hooks(c *Ctx, id string) {
 	round2Hooks4(c, id)
 	round2Hooks5(c, id)
 	round2Hooks6(c, id)
+	round2Hooks7(c, id)
+	round2Hooks8(c, id)
 	switch id {
 	case "C01":
 		sharedDeleteExact(c, "C01.g shared-delete-exact")
